@@ -227,8 +227,8 @@ VG_CALLS = VG_ITER + [(r'^sum_reduce\|', '(*nv_sum_reduce({&0}, {1}))'),
 def vgrad_targets():
     H = 'specs/C09/vgrad.h'
     LTU = 'src/linear/function.cpp'
-    lmembers = VG_MEMBERS + [(r'^bias\|nano::linear::function_t \*', 'nv_part({&0}, NV_ROLE_BIAS, nv_nondet_int64_t())'),
-                             (r'^weights\|nano::linear::function_t \*', 'nv_part({&0}, NV_ROLE_WEIGHTS, nv_nondet_int64_t())'),
+    lmembers = VG_MEMBERS + [(r'^bias\|nano::linear::function_t \*', 'nv_part_view(self, {&0}, NV_ROLE_BIAS)'),
+                             (r'^weights\|nano::linear::function_t \*', 'nv_part_view(self, {&0}, NV_ROLE_WEIGHTS)'),
                              (r'^array\|', 'nv_e_of({self})'), (r'^(sign|abs|square)\|', 'nv_e_unary({*self})'), (r'^mean\|', 'nv_e_mean({*self})')]
     lcalls = VG_CALLS + [(r'^operator=\|nano::tensor_t<nano::tensor_marray_storage_t, double, [12]> &\(const tensor_t<nano::tensor_vector_storage_t, double, [12]UL> &\)', 'nv_part_assign({&0}, {&1})'),
                          (r'^operator\*\|', 'nv_e_scale({0}, {1})'), (r'^operator/\|', 'nv_e_div({0}, {1})'), (r'^operator\+=\|.*ArrayWrapper', 'nv_arr_add({0}, {1})'),
@@ -249,7 +249,11 @@ def vgrad_targets():
     sdo = Fn('scale_do_vgrad', GTU, 'do_vgrad', flt='scale_function_t::do_vgrad', **gcommon)
     gdo = Fn('grads_do_vgrad', GTU, 'do_vgrad', flt='grads_function_t::do_vgrad', **gcommon)
     ggr = lambda: Fn('grads_gradients', GTU, 'gradients', flt='grads_function_t::gradients', **gcommon)
-    return [Target('linear_do_vgrad', [ldo], H), Target('bias_do_vgrad', [bdo], H), Target('scale_do_vgrad', [sdo], H),
+    # the calls bias(.) / weights(.) of do_vgrad are replaced by the clause list PROVED for the accessors on back end B (parts_smt.clauses)
+    import parts_smt
+    cn = dict(isize='self->m_isize', tsize='self->m_tsize', wsize='nv_wsize', xsize='x->size')
+    pdefs = ['NV_FACTS_BIAS=' + parts_smt.c_facts('bias', 'nv_off', ['nv_d0'], cn), 'NV_FACTS_WEIGHTS=' + parts_smt.c_facts('weights', 'nv_off', ['nv_d0', 'nv_d1'], cn)]
+    return [Target('linear_do_vgrad', [ldo], H, defines=pdefs), Target('bias_do_vgrad', [bdo], H), Target('scale_do_vgrad', [sdo], H),
             Target('grads_do_vgrad', [gdo, ggr()], H, replace=['grads_gradients']), Target('grads_gradients', [ggr()], H)]
 
 
